@@ -69,6 +69,13 @@ fn alphabet(n: usize) -> Vec<Dev> {
             true
         }));
     }
+    // serialize_all belongs to the string derives: the method names do not depend on it
+    for st in ["lowercase", "UPPERCASE", "SCREAMING-KEBAB-CASE"] {
+        d.push(dev(format!("serialize_all={:?} (no effect on method names)", st), &["style"], move |s| {
+            s.serialize_all = Some(st.to_string());
+            true
+        }));
+    }
     // two variants whose method names coincide, exactly one of them disabled (valid: a disabled variant gets no method)
     if n >= 2 {
         d.push(dev("v0.ident=HTTPServer + v1.ident=HttpServer(disabled)", &["id0", "id1", "dis1"], |s| {
